@@ -451,6 +451,25 @@ impl Report {
 
 /// Run another engine of the workspace (a sibling binary) as a part of this check and return
 /// what it found. Its own evidence and violation files are not written; the caller merges.
+/// Run a part of this engine in a child process (`--part <name>`), so that a crash of the code
+/// under test (a wild read after a broken bounds check ...) is an observation, not the end of the
+/// check. `Err((status, last_case))`: the child died; `last_case` is the last `CASE <json>` line
+/// it wrote to stderr before it did.
+pub fn run_part_in_child(property: &str, tier: Tier, part: &str) -> Result<Value, (String, Value)> {
+    let exe = std::env::current_exe().unwrap_or_else(|e| machinery_error(&format!("current_exe: {e}")));
+    let out = std::process::Command::new(&exe).arg(property).arg("--tier").arg(tier.as_str()).arg("--part").arg(part).env("VERIF_EMBEDDED", "1").output().unwrap_or_else(|e| machinery_error(&format!("cannot start {}: {e}", exe.display())));
+    let stdout = String::from_utf8_lossy(&out.stdout);
+    if let Some(j) = stdout.lines().rev().find_map(|l| l.strip_prefix("EMBEDDED-RESULT ").and_then(|j| serde_json::from_str::<Value>(j).ok())) {
+        return Ok(j);
+    }
+    let stderr = String::from_utf8_lossy(&out.stderr);
+    let last = stderr.lines().rev().find_map(|l| l.strip_prefix("CASE ").and_then(|j| serde_json::from_str::<Value>(j).ok())).unwrap_or(Value::Null);
+    Err((format!("{:?}", out.status), last))
+}
+
+/// Is this process a child started by `run_part_in_child` / `run_embedded`?
+pub fn is_embedded() -> bool { std::env::var("VERIF_EMBEDDED").ok().as_deref() == Some("1") }
+
 pub fn run_embedded(engine: &str, property: &str, tier: Tier) -> Value {
     let exe = std::env::current_exe().unwrap_or_else(|e| machinery_error(&format!("current_exe: {e}")));
     let other = exe.with_file_name(engine);
